@@ -133,30 +133,60 @@ func (s *source) Fetch(ctx context.Context, pid peer.ID) (*model.ProviderInfo, e
 }
 
 // serveHTTP starts the server behind an HTTP-backed source: it answers with what the gate released.
+// One test server per source index for the whole process (and one HTTP client with keep-alive for all the library's sources):
+// a server per behaviour would go through tens of thousands of listening sockets and connections in a thorough run, and
+// leave no loopback port free.  The server answers for whichever source is registered for its index at the moment.
+var (
+	sharedMu      sync.Mutex
+	sharedServers = map[int]*httptest.Server{}
+	sharedCurrent = map[int]*source{}
+	sharedClient  = &http.Client{Transport: &http.Transport{MaxIdleConnsPerHost: 8}}
+)
+
 func (s *source) serveHTTP() error {
-	s.srv = httptest.NewServer(http.HandlerFunc(func(w http.ResponseWriter, req *http.Request) {
-		s.mu.Lock()
-		r := s.next
-		s.mu.Unlock()
-		var apiErr *apierror.Error
-		switch {
-		case errors.As(r.err, &apiErr):
-			http.Error(w, string(apierror.EncodeError(apiErr)), apiErr.Status())
-		case r.err != nil:
-			http.Error(w, r.err.Error(), http.StatusInternalServerError)
-		case strings.HasSuffix(req.URL.Path, "/providers"):
-			infos := r.infos
-			if infos == nil {
-				infos = []*model.ProviderInfo{}
+	sharedMu.Lock()
+	srv := sharedServers[s.idx]
+	if srv == nil {
+		idx := s.idx
+		srv = httptest.NewServer(http.HandlerFunc(func(w http.ResponseWriter, req *http.Request) {
+			sharedMu.Lock()
+			cur := sharedCurrent[idx]
+			sharedMu.Unlock()
+			if cur == nil {
+				http.Error(w, "no source registered", http.StatusServiceUnavailable)
+				return
 			}
-			json.NewEncoder(w).Encode(infos)
-		default:
-			json.NewEncoder(w).Encode(r.info)
-		}
-	}))
+			cur.serve(w, req)
+		}))
+		sharedServers[s.idx] = srv
+	}
+	sharedCurrent[s.idx] = s
+	sharedMu.Unlock()
+	s.srv = srv
 	var err error
-	s.via, err = pcache.NewHTTPSource(s.srv.URL, nil)
+	s.via, err = pcache.NewHTTPSource(srv.URL, sharedClient)
 	return err
+}
+
+func (s *source) serve(w http.ResponseWriter, req *http.Request) {
+	s.mu.Lock()
+	r := s.next
+	s.mu.Unlock()
+	var apiErr *apierror.Error
+	switch {
+	case errors.As(r.err, &apiErr):
+		http.Error(w, string(apierror.EncodeError(apiErr)), apiErr.Status())
+	case r.err != nil:
+		http.Error(w, r.err.Error(), http.StatusInternalServerError)
+	case strings.HasSuffix(req.URL.Path, "/providers"):
+		infos := r.infos
+		if infos == nil {
+			infos = []*model.ProviderInfo{}
+		}
+		json.NewEncoder(w).Encode(infos)
+	default:
+		json.NewEncoder(w).Encode(r.info)
+	}
 }
 
 func (s *source) String() string { return "sim-source-" + strconv.Itoa(s.idx) }
